@@ -505,3 +505,130 @@ _HE = dict(
 R.contract("H3Connection.handle_event", params={"event": "StreamDataReceived"}, **dict(_HE, requires=_HE["requires"] + ["event.stream_id is not None"]))
 R.contract("H3Connection.handle_event#datagram", params={"event": "DatagramFrameReceived"}, **_HE)
 R.contract("H3Connection.handle_event#other", params={"event": "ConnectionTerminated"}, **_HE)
+
+# ---------------------------------------------------------------------------------------------------------------- (8)
+# HTTP/0.9.  bytes methods (CPython, trusted): only what the request-line parser relies on.
+R.spec(
+    """
+def b_has(b, c):
+    return exists(lambda i: 0 <= i < len(b) and elem(b, i) == c)
+"""
+)
+R.contract("bytes.endswith", trusted=True, returns="bool", params={"a0": "bytes", "a1": "bytes"}, note="CPython bytes.endswith: total")
+R.contract("bytes.rstrip", trusted=True, returns="bytes", params={"a0": "bytes"}, ensures=["len(result) <= len(a0)"], note="CPython bytes.rstrip(): total; the result is a prefix of the receiver")
+R.contract(
+    "bytes.split",
+    trusted=True,
+    returns="list[bytes]",
+    params={"a0": "bytes", "a1": "bytes", "a2": "int"},
+    requires=["len(a1) == 1 and a2 == 1"],
+    # b.split(sep, 1) with a one-byte separator: two pieces exactly when the separator occurs, otherwise the whole string
+    ensures=["len(result) == ite(b_has(a0, elem(a1, 0)), 2, 1)"],
+    note="CPython bytes.split(sep, 1): total for a non-empty separator",
+)
+R.field_types("H0Connection", _buffer="dict[int,bytes]", _headers_received="dict[int,bool]", _is_client="bool")
+_H0 = dict(
+    returns="list[H3Event]",
+    raises={},
+    modifies=["self._buffer", "self._headers_received"],
+    ensures=["len(result) <= 2"],
+    prop=["C16"],
+)
+R.contract("H0Connection.handle_event", params={"event": "StreamDataReceived"}, **dict(_H0, requires=["event.stream_id is not None"]))
+R.contract("H0Connection.handle_event#other", params={"event": "ConnectionTerminated"}, **_H0)
+# (fix tools/fixes/c16_h0_request_line.patch uses bytes.partition: total, three pieces)
+R.contract("bytes.partition", trusted=True, returns="tuple[bytes,bytes,bytes]", params={"a0": "bytes", "a1": "bytes"}, requires=["len(a1) >= 1"],
+           ensures=["len(result[0]) + len(result[1]) + len(result[2]) == len(a0)"], note="CPython bytes.partition(sep): total for a non-empty separator")
+
+# ---------------------------------------------------------------------------------------------------------------- (9)
+# "After such a close the transport can still emit its closing packet, whatever text the error message contains."
+# str.encode("utf8") (CPython, trusted): UnicodeEncodeError exactly for strings with lone surrogates (uninterpreted predicate
+# str_utf8_ok); the result is a function of the string (str_utf8), empty for the empty string, 1..4 bytes per character.
+R.ufunc("str_utf8_ok", ["str"], "bool")
+R.ufunc("str_utf8", ["str"], "bytes")
+R.contract(
+    "str.encode",
+    trusted=True,
+    returns="bytes",
+    params={"a0": "str", "a1": "str"},
+    raises={"UnicodeEncodeError": "not str_utf8_ok(a0)"},
+    ensures=["same(result, str_utf8(a0))", "len(a0) <= len(result) <= 4 * len(a0)"],
+    on_raise={"UnicodeEncodeError": ["len(a0) > 0"]},
+    note="CPython str.encode('utf8')",
+)
+R.spec(
+    """
+def cc_early(epoch, frame_type):
+    "an application-level close in the Initial / Handshake packet number space is sent as a transport close WITHOUT the reason (RFC 9000 10.2.3)"
+    return frame_type is None and (epoch == Epoch.INITIAL or epoch == Epoch.HANDSHAKE)
+
+def cc_overhead(epoch, frame_type):
+    "frame type byte + the varints of the close frame, as the code budgets them"
+    return ite(frame_type is None and not cc_early(epoch, frame_type), 17, 25)
+"""
+)
+_CC_COMMON = dict(
+    params={"epoch": "Epoch", "frame_type": "Optional[int]", "reason_phrase": "str"},
+    # from the call site (close branch of datagrams_to_send): a packet was just started; codes are varints
+    requires=["builder._packet is not None", "0 <= error_code <= %d" % UV, "frame_type is None or 0 <= some(frame_type) <= %d" % UV],
+    assume_pre=["self._quic_logger is None or builder.quic_logger_frames is not None"],
+    let={"rb": "builder._buffer_capacity - builder._buffer.g_pos - 16"},
+    modifies=["builder._buffer.g_pos", "builder._buffer.g_mem", "builder.quic_logger_frames", "QuicSentPacket.is_ack_eliciting[*]", "QuicSentPacket.in_flight[*]", "QuicSentPacket.is_crypto_packet[*]", "QuicSentPacket.delivery_handlers[*]"],
+    cuts={
+        # the reason length announced to the packet builder is that of the phrase sent AT THIS ENCRYPTION LEVEL (the empty
+        # phrase for an application close in the early spaces), never of a phrase that was replaced
+        "if frame_type is None:": ["reason_length <= len(str_utf8(reason_phrase))", "implies(cc_early(epoch, old(frame_type)), reason_length == 0)"],
+    },
+    ensures=[
+        # exactly one close frame, within the announced budget
+        "builder._buffer.g_pos <= old(builder._buffer.g_pos) + cc_overhead(epoch, old(frame_type)) + len(str_utf8(reason_phrase))",
+        "builder._buffer.g_pos > old(builder._buffer.g_pos)",
+        "builder._buffer.g_pos + 16 <= builder._buffer_capacity",
+    ],
+    prop=["C16"],
+)
+# C16 clause: WHATEVER the reason text, the frame writer refuses (QuicPacketBuilderStop) only when not even the bare close
+# frame fits the packet; no BufferWriteError / ValueError from the pushes; UnicodeEncodeError only for text that has no
+# UTF-8 encoding (lone surrogates - cannot come from the HTTP layer, whose messages are formatted from bytes reprs / ints).
+# FINDING on the unchanged tree (refuted: raises.QuicPacketBuilderStop.if): a reason longer than the room left in the
+# packet makes start_frame refuse; known_findings.json, fix tools/fixes/c16_close_reason_truncate.patch.
+R.contract(
+    "QuicConnection._write_connection_close_frame",
+    raises={
+        "QuicPacketBuilderStop": "rb < cc_overhead(epoch, frame_type)",
+        "UnicodeEncodeError": "not cc_early(epoch, frame_type) and not str_utf8_ok(reason_phrase)",
+    },
+    **_CC_COMMON,
+)
+# bytes.isdigit (CPython, trusted): non-empty and every byte an ASCII digit.  Not used by the unchanged tree; declared so that a
+# rewrite of the content-length check in terms of isdigit() (seeded defect 2) is decided rather than unsupported.
+R.contract("bytes.isdigit", trusted=True, returns="bool", params={"a0": "bytes"},
+           ensures=["result == (len(a0) >= 1 and forall(lambda i: implies(0 <= i < len(a0), py_digit(elem(a0, i)))))"], note="CPython bytes.isdigit(): total")
+# bytes.decode("utf8", "ignore") (CPython, trusted; used by the fix tools/fixes/c16_close_reason_truncate.patch): total; undecodable
+# bytes are dropped, so re-encoding the result gives at most as many bytes
+R.contract("bytes.decode", trusted=True, returns="str", params={"a0": "bytes", "a1": "str", "a2": "str"}, requires=["a2 == 'ignore'"],
+           ensures=["str_utf8_ok(result)", "len(str_utf8(result)) <= len(a0)"], note="CPython bytes.decode('utf8', 'ignore')")
+
+# ---------------------------------------------------------------------------------------------------------------- (11)
+# FINDING kept as a separate variant (expected REFUTED on the unchanged tree; known_findings.json; no small fix):
+# assumption W (h3_writable) is NOT an invariant of the system - the peer can break it with a transport frame.  After a
+# STOP_SENDING for this endpoint's QPACK decoder (or encoder / control) stream the transport resets the send half, and the
+# next HEADERS frame makes _decode_headers call send_stream_data on it: `assert self._reset_error_code is None` fails and
+# AssertionError escapes H3Connection.handle_event (tools/repro/c16_stop_sending_qpack_stream.py).  Outside the literal
+# quantification of C16 ("byte sequences a peer can place on any stream"), inside its claim ("returns normally").
+R.spec(
+    """
+def h3_local_ids_sendable(c):
+    return c._local_decoder_stream_id is not None and c._local_encoder_stream_id is not None and q_sendable(c._quic, some(c._local_decoder_stream_id)) and q_sendable(c._quic, some(c._local_encoder_stream_id))
+"""
+)
+R.contract(
+    "H3Connection._decode_headers#finding_stop_sending",
+    params={"frame_data": "Optional[bytes]"},
+    returns="Headers",
+    requires=["h3_local_ids_sendable(self)", "h3_hdr_call_ok(self, stream_id, frame_data is not None)"],
+    raises={"QpackDecompressionFailed": None, "StreamBlocked": None},
+    modifies=_DEC_MOD,
+    ensures=["h3_pending_minus(self, stream_id)"],
+    prop=["C16"],
+)
